@@ -57,7 +57,10 @@ def gen_cfg(sw: Stream, ra: Stream, methods=('pit', 'mps', 'sn'), weights=(4, 4,
         cand = [n for n, d in cfg['spec']['mods'].items()
                 if d['t'].startswith('conv') and not n.startswith('dw')]
         if cand:
-            ctor['exclude_names'] = [sw.choice(cand)]
+            ctor['exclude_names'] = sw.sample(cand, 1 if sw.chance(0.6) else min(2, len(cand)))
+    elif method in ('pit', 'mps') and sw.chance(0.07):
+        # a whole layer type is excluded from the search
+        ctor['exclude_types'] = [sw.choice(['conv', 'conv', 'linear'])]
     cfg['ctor'] = ctor
     return cfg
 
